@@ -14,6 +14,7 @@ import TzVerif.Proofs.ZoneNew
 import TzVerif.Proofs.SrcEqZone
 import TzVerif.Proofs.SrcEqTzFileAux
 import TzVerif.Proofs.SrcEqLttEqual
+import TzVerif.Generated.StableC13   -- per run: the current translation (SrcNow) equals the baseline (Src) these theorems are about
 
 namespace TzVerif.C13
 open TzVerif.Model
